@@ -73,11 +73,12 @@ inductive Op
   | hb (n : Nat)
   | w (s : String)
   | meh (m : Meh)
+  | snoop (t : Oid)        -- snoop (this_object (), t): this user sees what user t types
   | it (tag : String)      -- input_to ("it_fire", 0, tag): the next line of this user goes to the callback
   deriving Repr
 
 inductive Kind
-  | logon | input | cmd (v : String) | netdead | hb | co (tag : String) | reset | it (tag : String) | cleanup | prompt
+  | logon | input | cmd (v : String) | netdead | hb | co (tag : String) | reset | it (tag : String) | cleanup | prompt | snoop
   deriving DecidableEq, Repr
 
 inductive ConnB | ok | err | rej
@@ -95,6 +96,7 @@ inductive Ev
   | tNetdead (o : Oid) | tHb (o : Oid) | tCo (o : Oid) (tag : String) | tReset (o : Oid) | tCleanup (o : Oid)
   | tIt (o : Oid) (tag : String) (line : String) | xIt (o : Oid) (tag : String) | tPrompt (o : Oid)
   | tEpilog | tPreload (name : String)
+  | tSnoop (o : Oid) | xSnoop (o t : Oid)
   | xErr (who : String) | xCerr (o : Oid) | xDest (o t : Oid) | xCo (o : Oid) (tag : String) | xHb (o : Oid) (n : Nat)
   | meh (caught : Bool) (msg : String)
   | hbs (l : List String) | out (name : String) (text : String) | slots (n : Nat)
@@ -114,6 +116,9 @@ structure Conn where
   closing : Bool      -- CLOSING
   out : String        -- everything add_message()d (canonical form)
   inputTo : Option String := none   -- ip->input_to: the pending input_to() callback (its carry-over argument)
+  snoopBy : Option Oid := none      -- ip->snoop_by, named by the snooper's OBJECT (ip->snoop_by->ob); that the C
+                                    -- pointer itself never dangles (both ends cleared in remove_interactive) is
+                                    -- observed by ASan only
   deriving Repr
 
 structure CallOut where
@@ -204,6 +209,40 @@ def mapSlot (id : Nat) (f : Conn → Conn) : Option Conn → Option Conn
 
 def mapConn (w : W) (id : Nat) (f : Conn → Conn) : W :=
   { w with users := w.users.map (fun l => l.map (mapSlot id f)) }
+
+/-- apply `g` to every connection record -/
+def mapAll (w : W) (g : Conn → Conn) : W := { w with users := w.users.map (fun l => l.map (fun s => s.map g)) }
+
+/-- the record `ob` is snooping, if any: `ob->interactive->snoop_on` -/
+def snoopTargetOf (w : W) (ob : Oid) : Option Conn :=
+  ((slots w).find? (fun s => match s with | some c => c.snoopBy == some ob | none => false)).join
+
+/-- "Protect against snooping loops": `for (tmp = on; tmp; tmp = tmp->snoop_on) if (tmp == by) return 0;` -/
+def snoopLoop : Nat → W → Oid → Oid → Bool
+  | 0, _, _, _ => false
+  | n + 1, w, by_, tmp =>
+    if tmp = by_ then true else
+    match snoopTargetOf w tmp with
+    | none => false
+    | some c => snoopLoop n w by_ c.ob
+
+def snoopLink (me : Oid) (idy : Nat) (c : Conn) : Conn :=
+  if c.id = idy then { c with snoopBy := some me }            -- on->snoop_by = by (a previous snooper is replaced)
+  else if c.snoopBy = some me then { c with snoopBy := none } -- by->snoop_on->snoop_by = 0
+  else c
+
+def snoopUnlink (o : Oid) (c : Conn) : Conn := if c.snoopBy = some o then { c with snoopBy := none } else c
+
+/-- new_set_snoop (me, you), guarded by the scripted object: both interactive, not the same object -/
+def setSnoop (w : W) (me you : Oid) : W :=
+  if me = you || w.dead you then w else
+  match w.inter me, w.inter you with
+  | some _, some idy =>
+    if snoopLoop (slots w).length w me you then w else mapAll w (snoopLink me idy)
+  | _, _ => w
+
+/-- remove_interactive(): `ip->snoop_on->snoop_by = 0` - whoever the removed user was snooping is no longer snooped -/
+def clearSnoopers (w : W) (o : Oid) : W := mapAll w (snoopUnlink o)
 
 /-- a C access through a saved `ip` after a callback: crash when the record was freed meanwhile -/
 def useConn (w : W) (id : Nat) : W :=
@@ -355,8 +394,8 @@ def freeConnOf (w : W) (o : Oid) (id : Nat) (client : Nat) : W :=
     -- console user and stdin is not a tty: "Console input closed (pipe/file) - shutting down"
     if w.mode = .console && hasId id (l.headD none) then { w1 with shutdown := true } else w1
 
-/-- remove_interactive(ob, dested) -/
-def removeInteractive (rh : HookFn) (w : W) (o : Oid) (dested : Bool) : W :=
+/-- remove_interactive(ob, dested) without the snoop links -/
+def removeInteractiveBody (rh : HookFn) (w : W) (o : Oid) (dested : Bool) : W :=
   match w.inter o with
   | none => w
   | some id =>
@@ -367,6 +406,11 @@ def removeInteractive (rh : HookFn) (w : W) (o : Oid) (dested : Bool) : W :=
       let w := netDeadHook rh (mapConn w id markClosing) o dested
       -- the record is still ours (CLOSING keeps everybody else away): ip->snoop_by, ip != all_users[0], FREE (ip)
       freeConnOf (useConn w id) o id c.client
+
+/-- remove_interactive(ob, dested): when the record has gone, the users it was snooping are no longer snooped -/
+def removeInteractive (rh : HookFn) (w : W) (o : Oid) (dested : Bool) : W :=
+  if (w.inter o).isSome && ((removeInteractiveBody rh w o dested).inter o).isNone
+  then clearSnoopers (removeInteractiveBody rh w o dested) o else removeInteractiveBody rh w o dested
 
 /-- destruct_object() -/
 def destructObject (rh : HookFn) (w : W) (o : Oid) : W :=
@@ -430,6 +474,8 @@ def runOps (rh : HookFn) (self : Oid) : List Op → W → R
       -- tell_object(): add_message for a user; for a plain object the catch_tell apply touches it (O_RESET_STATE off)
       runOps rh self rest (addOut (touch w self) self (s ++ "|"))
     | .meh m => runOps rh self rest { w with meh := m }
+    | .snoop t =>
+      runOps rh self rest (setSnoop (emit w (.xSnoop self t)) self t)
     | .it tag =>
       -- input_to(): set_call (command_giver, ...) - command_giver is the user itself in logon / process_input /
       -- command / input_to callbacks; refused (returns 0, no error) when there is no connection or one is pending
@@ -445,6 +491,7 @@ def kindEv (o : Oid) : Kind → Ev
   | .reset => .tReset o
   | .cleanup => .tCleanup o
   | .prompt => .tPrompt o
+  | .snoop => .tSnoop o
   | .it tag => .tIt o tag ""
 
 /-- run hook `k` of object `o` with nesting fuel -/
@@ -515,14 +562,39 @@ def splitLines (part : String) (text : String) : List String × String :=
 
 def bufferText (ls : List String) (p : String) (c : Conn) : Conn := { c with cmds := c.cmds ++ ls, part := p }
 
-/-- get_user_data() with data: buffer it, echo CR LF per completed line (telnet); no LPC is called -/
-def userData (w : W) (id : Nat) (telnet : Bool) (text : String) : W :=
+/-- receive_snoop(): `safe_apply (APPLY_RECEIVE_SNOOP, ip->snoop_by->ob)` (fix commit: own recovery point) - the
+    snooper's callback may destruct or disconnect anybody, an error in it stops there.  The scripted receive_snoop()
+    acts on text that carries a CR (raw input and the CR LF echo), not on ordinary output. -/
+def snoopHook (rh : HookFn) (w : W) (id : Nat) : W :=
+  match findConn w id with
+  | none => w
+  | some c =>
+    match c.snoopBy with
+    | none => w
+    | some s => popCtx (rh (emit (pushCtx w) (.tSnoop s)) s .snoop).1
+
+/-- copy_chars(): every CR LF is echoed - add_message (ip->ob, "\r\n"), whose last act is the snoop forwarding - and
+    the record is re-validated afterwards (fix commit): when the snooper removed the user, copy_chars() gives up (-1) -/
+def echoLoop (rh : HookFn) : Nat → W → Nat → Oid → W
+  | 0, w, _, _ => w
+  | n + 1, w, id, ob =>
+    let w1 := snoopHook rh (addOut w ob "|") id
+    if w1.inter ob ≠ some id then w1 else echoLoop rh n w1 id ob
+
+/-- get_user_data() with data.  Console: the line is buffered.  TELNET: copy_chars() (echo per line; -1 = the user is
+    gone, the packet is dropped), then the text is in the buffer and CMD_IN_BUF is set, and LAST (fix commit: it came
+    before the flag and `ip` was used after it) the raw input is shown to the snooper. -/
+def userData (rh : HookFn) (w : W) (id : Nat) (telnet : Bool) (text : String) : W :=
   match findConn w id with
   | none => w
   | some c =>
     let ls := (splitLines c.part text).1.filter (· ≠ "")
-    let w := mapConn w id (bufferText ls (splitLines c.part text).2)
-    if telnet then addOut w c.ob (String.join (ls.map (fun _ => "|"))) else w
+    if telnet then
+      let w1 := echoLoop rh ls.length w id c.ob
+      if w1.inter c.ob ≠ some id then w1 else
+      let w2 := mapConn w1 id (bufferText ls (splitLines c.part text).2)
+      if text.contains '/' then snoopHook rh w2 id else w2
+    else mapConn w id (bufferText ls (splitLines c.part text).2)
 
 def connOfClient (w : W) (client : Nat) : Option Conn :=
   ((slots w).find? (fun s => match s with | some c => c.client == client | none => false)).join
@@ -537,9 +609,8 @@ def ioEvent (S : Scripts) (rh : HookFn) (w : W) : IoEv → R
     | some c =>
       -- "Validate interactive is still valid": !ip->ob || destructed || ip->ob->interactive != ip
       if w.dead c.ob || w.inter c.ob ≠ some c.id then (w, false) else
-      let w := userData w c.id true text
       -- after get_user_data: re-validated through the saved object (fix commit), never through ip
-      (w, false)
+      (userData rh w c.id true text, false)
   | .eof id =>
     -- EVENT_READ, recv() returns 0: get_user_data() calls remove_interactive (ip->ob, 0)
     match findConn w id with
@@ -563,7 +634,7 @@ def ioEvent (S : Scripts) (rh : HookFn) (w : W) : IoEv → R
       if r.2 then (r.1, true) else
       match (slots r.1).headD none with
       | none => (r.1, false)
-      | some c => (userData r.1 c.id false text, false)
+      | some c => (userData rh r.1 c.id false text, false)
 
 def processIoEvents (S : Scripts) (rh : HookFn) : List IoEv → W → R
   | [], w => (w, false)
